@@ -1,10 +1,10 @@
 package props
 
 import (
-	"github.com/jig/lisp/lisperror"
 	"context"
 	"errors"
 	"fmt"
+	"github.com/jig/lisp/lisperror"
 	"reflect"
 	"strings"
 
@@ -252,8 +252,8 @@ func init() {
 			return strings.Join(s, "/")
 		}
 		contract := &vf.Family{
-			Name:   "signature-x-bounds-x-args",
-			Bounds: fmt.Sprintf("%d generated signatures (ctx or not; 0-2 fixed parameters of types int/string/MalType/List/Vector/error; variadic none/...MalType/...int/...error; results none/error/(MalType,error)/(int,error)) x declared bounds none/(m)/(m,M) for fixed<=m<=M<=3 x both registration entry points; each called with every argument list of length 0..4 over {nil, int, string, list, vector, Go error} (thorough: length 0..5, also a bool and a hash map); result/err/panic modes on a legal call", len(c20Table)),
+			Name:     "signature-x-bounds-x-args",
+			Bounds:   fmt.Sprintf("%d generated signatures (ctx or not; 0-2 fixed parameters of types int/string/MalType/List/Vector/error; variadic none/...MalType/...int/...error; results none/error/(MalType,error)/(int,error)) x declared bounds none/(m)/(m,M) for fixed<=m<=M<=3 x both registration entry points; each called with every argument list of length 0..4 over {nil, int, string, list, vector, Go error} (thorough: length 0..5, also a bool and a hash map); result/err/panic modes on a legal call", len(c20Table)),
 			N:        func(string) int64 { return int64(len(cfgs)) },
 			Describe: descr,
 			Run: func(i int64, r *vf.Rec) {
@@ -479,9 +479,12 @@ func init() {
 		}
 		closures := &vf.Family{
 			Name: "closures-of-one-literal", InProc: true,
-			Bounds:   fmt.Sprintf("%d cases: 3 closures made by one function literal (with / without a context parameter) registered under one name through Call / CallOverrideFN in 3 fresh environments, then called in 4 orders: every call must enter the closure of its own environment", len(cloCases)),
-			N:        func(string) int64 { return int64(len(cloCases)) },
-			Describe: func(i int64) string { c := cloCases[i]; return fmt.Sprintf("override=%v ctx=%v call order %v", c.viaOvr, c.ctx, c.order) },
+			Bounds: fmt.Sprintf("%d cases: 3 closures made by one function literal (with / without a context parameter) registered under one name through Call / CallOverrideFN in 3 fresh environments, then called in 4 orders: every call must enter the closure of its own environment", len(cloCases)),
+			N:      func(string) int64 { return int64(len(cloCases)) },
+			Describe: func(i int64) string {
+				c := cloCases[i]
+				return fmt.Sprintf("override=%v ctx=%v call order %v", c.viaOvr, c.ctx, c.order)
+			},
 			Run: func(i int64, r *vf.Rec) {
 				cc := cloCases[i]
 				r.NT()
@@ -525,10 +528,10 @@ func init() {
 		_ = model.Nil
 		return &vf.Check{
 			RacePass: c20RacePass,
-			ID: "C20", Level: "model_checking",
-			Rule: "every (signature, declared bounds, entry point) configuration is registered through the real binder and called through EVAL with every argument list up to length 4; whether the Go function must be entered is computed from its reflect.Type alone (count within declared or derived bounds, every argument assignable, nil only to empty-interface parameters) and compared with what the instrumented function recorded (entered, arguments, context marker), plus result/err/panic conventions; non-trivial = configuration with at least one legal call",
+			ID:       "C20", Level: "model_checking",
+			Rule:        "every (signature, declared bounds, entry point) configuration is registered through the real binder and called through EVAL with every argument list up to length 4; whether the Go function must be entered is computed from its reflect.Type alone (count within declared or derived bounds, every argument assignable, nil only to empty-interface parameters) and compared with what the instrumented function recorded (entered, arguments, context marker), plus result/err/panic conventions; non-trivial = configuration with at least one legal call",
 			Assumptions: []string{"declared bounds count lisp arguments (as the comments at the call.Call(env, apply, 2) sites say), not the injected context", "declared bounds below the number of fixed parameters are not generated (inconsistent declaration)"},
-			Families: []*vf.Family{contract, naming, closures},
+			Families:    []*vf.Family{contract, naming, closures},
 		}
 	})
 }
